@@ -6,7 +6,7 @@ package criteria_omission
 // Contracts for gocv (comment-only; compiled out unless the tag "verif" is set, and empty then).
 
 //@ func omitCriteria
-//@   property C15 C07 C01 C09
+//@   property C15 C07 C01 C09 C20
 //@   requires model.rearranged(*omissionOrderCriteria, current.Criteria)
 //@   requires model.coversAll(*listener, current.MethodParameters, current.Criteria) && model.validParams(*listener, current.MethodParameters)
 //@   ensures [omitted_are_first] *result1 == (*omissionOrderCriteria)[0:criteria_splitting.pivot(len(*omissionOrderCriteria), *parsedProps)]
@@ -26,7 +26,7 @@ package criteria_omission
 //@ pred omissionActs(b model.Bias, out *model.DecisionMakingParams, in *model.DecisionMakingParams) = len(out.Criteria) <= len(in.Criteria) && forall k int :: 0 <= k && k < len(out.Criteria) ==> exists j int :: 0 <= j && j < len(in.Criteria) && out.Criteria[k] == in.Criteria[j]
 //@ func (*CriteriaOmission).Apply
 //@   refines model.Bias.Apply with actsOn=omissionActs
-//@   property C15 C07 C09 C01
+//@   property C15 C07 C09 C01 C20
 //@   requires model.coherent(*listener, *current)
 //@   ensures [report_type] typeis(result.Props, CriteriaOmissionResult)
 //@   ensures [partition_sizes] len(result.Props.(CriteriaOmissionResult).OmittedCriteria) + len(result.DMP.Criteria) == len(current.Criteria)
@@ -63,6 +63,6 @@ package criteria_omission
 
 // ---- registered names (what a request must say to select this object; what error messages list)
 //@ func (*CriteriaOmission).Identifier
-//@   property C15 C20
+//@   property C15 C20 C01 C03 C04 C05 C06 C07 C08 C09 C11 C12 C13 C14 C16 C17 C18 C19
 //@   nopanic
 //@   ensures [name] result == "criteriaOmission"
